@@ -204,6 +204,10 @@ def run(rep):
                 rep.cov["evaluations"] += n
                 rep.cov["distinct_nontrivial"] += n
                 rep.cov.setdefault("corpus_types", {})[what] = inf["stats"].get("types")
+        # the concrete helper-request relation of the plugins (G/Requests.lean, Props/C01r): the functions the real
+        # goderive generates must be exactly the closure the model predicts
+        from vlib import requests as requests_tie
+        requests_tie.run(rep)
     finally:
         shutil.rmtree(root, ignore_errors=True)
 
